@@ -7,6 +7,12 @@
  *   <id> g <op> <args> ...   slots 12..14 reference<metatype>, 15..17 raw metatype*; objects: metatype::generic
  *        xnew d (x) | xgen d (g) | xclone s d (g) | xassign s d | xcopy s d | xmove s d | xdetach s d | xset s d | xdrop d
  *        addref s d | unref s (raw pointers) | force s <hex> | unforce
+ *   <id> n <op> <args> ...   slots 12..14 reference<Node>, 15..17 raw Node*; objects: reference<Node>::type instances of a
+ *                            harness class that OWNS a reference<Node> next (linked nodes, logging vtable); the operations
+ *                            of family x except force/unforce, plus
+ *        xsetnext s d        r[d].instance()->next = r[s]   (only towards an object created earlier: no cycles)
+ *        xnext s d           r[d] = r[s].instance()->next   (s == d: step along the chain)
+ *                            objects token: <hex count>[><object next refers to>] | x
  *   <id> y <cop> <args> ...  refcount::raise / refcount::lower on a bare counter
  *   <id> q                   probe: create a metatype::generic and drop its only reference (allocator discipline)
  * Token format: see ml/c15_driver.ml.  The x objects' addref/unref overrides log the call and forward to the
@@ -60,6 +66,36 @@ public:
 	}
 };
 
+/* family n: nodes that own a reference to another node (destroying a node releases its successor) */
+class Node
+{
+public:
+	Node() : id(-1) { }
+	virtual ~Node() { ev('d', id); }
+	virtual void unref() = 0;
+	virtual uintptr_t addref() = 0;
+	reference<Node> next;
+	int id;
+};
+class CNode : public reference<Node>::type
+{
+public:
+	void unref()
+	{
+		ev('u', id);
+		reference<Node>::type::unref();
+	}
+	uintptr_t addref()
+	{
+		ev('a', id);
+		return reference<Node>::type::addref();
+	}
+	uintptr_t &field()
+	{
+		return *reinterpret_cast<uintptr_t *>(&_ref);
+	}
+};
+
 /* family x: harness objects */
 struct FamObj
 {
@@ -74,6 +110,24 @@ struct FamObj
 	static Obj *clone(Obj *) { return 0; }
 	static bool can_create(const char *op) { return !strcmp(op, "xnew"); }
 	static bool can_clone() { return false; }
+	static bool can_force() { return true; }
+	static reference<Obj> *next(Obj *) { return 0; }
+};
+struct FamNode
+{
+	typedef Node base;
+	static Node *create(int id)
+	{
+		CNode *o = new CNode;
+		o->id = id;
+		return o;
+	}
+	static uintptr_t &field(Node *p) { return static_cast<CNode *>(p)->field(); }
+	static Node *clone(Node *) { return 0; }
+	static bool can_create(const char *op) { return !strcmp(op, "xnew"); }
+	static bool can_clone() { return false; }
+	static bool can_force() { return false; }
+	static reference<Node> *next(Node *p) { return &p->next; }
 };
 /* family g: library objects */
 struct FamGen
@@ -88,6 +142,8 @@ struct FamGen
 	static metatype *clone(metatype *p) { return p->clone(); }
 	static bool can_create(const char *op) { return !strcmp(op, "xgen"); }
 	static bool can_clone() { return true; }
+	static bool can_force() { return true; }
+	static reference<metatype> *next(metatype *) { return 0; }
 };
 
 #define MAXOBJ 256
@@ -141,7 +197,11 @@ struct Run
 		for (int i = 0; i < nobj; i++) {
 			if (i) vh_add(",");
 			if (!alive(i)) vh_add("x");
-			else vh_add("%llx", (unsigned long long) F::field(optr(i)));
+			else {
+				reference<T> *nx = F::next(optr(i));
+				vh_add("%llx", (unsigned long long) F::field(optr(i)));
+				if (nx && nx->instance()) vh_add(">%d", find_obj(nx->instance()));
+			}
 		}
 		if (!nobj) vh_add("-");
 		vh_add("|");
@@ -248,14 +308,30 @@ struct Run
 					vh_tok("D");
 				}
 			}
+			else if (!strcmp(op, "xsetnext")) {
+				int s = ARGI(0), d = ARGI(1), od, os;
+				t += 2;
+				od = bank(d) == 3 ? slot_obj(d) : -1;
+				os = bank(s) == 3 ? slot_obj(s) : -1;
+				if (bank(s) != 3 || od < 0 || !F::next(optr(od)) || (rslot[s - 12].instance() && os >= od)) vh_tok("X");
+				else { *F::next(rslot[d - 12].instance()) = rslot[s - 12]; vh_tok("D"); }
+			}
+			else if (!strcmp(op, "xnext")) {
+				int s = ARGI(0), d = ARGI(1), os;
+				t += 2;
+				os = bank(s) == 3 ? slot_obj(s) : -1;
+				if (bank(d) != 3 || os < 0 || !F::next(optr(os))) vh_tok("X");
+				else { rslot[d - 12] = *F::next(rslot[s - 12].instance()); vh_tok("D"); }
+			}
 			else if (!strcmp(op, "force")) {
 				int s = ARGI(0), o;
 				unsigned long long v = strtoull(tok[t + 1], 0, 16);
 				t += 2;
 				o = bank(s) == 3 ? slot_obj(s) : -1;
-				if (o < 0 || v < 1 || held(o) > v) vh_tok("X");
+				if (!F::can_force() || o < 0 || v < 1 || held(o) > v) vh_tok("X");
 				else { F::field(optr(o)) = (uintptr_t) v; vh_tok("D"); }
 			}
+			else if (!strcmp(op, "unforce") && !F::can_force()) vh_tok("X");
 			else if (!strcmp(op, "unforce")) {
 				int n = nobj;
 				for (int i = 0; i < n; i++) {
@@ -275,6 +351,7 @@ struct Run
 };
 static Run<FamObj> runx;
 static Run<FamGen> rung;
+static Run<FamNode> runn;
 
 static void run_counter(int ntok, char **tok)
 {
@@ -306,6 +383,7 @@ static void run_case(int ntok, char **tok)
 	if (ntok < 2) return;
 	if (!strcmp(tok[1], "x")) runx.run(ntok, tok);
 	else if (!strcmp(tok[1], "g")) rung.run(ntok, tok);
+	else if (!strcmp(tok[1], "n")) runn.run(ntok, tok);
 	else if (!strcmp(tok[1], "y")) run_counter(ntok, tok);
 	else if (!strcmp(tok[1], "q")) run_probe();
 	else vh_tok("?family");
